@@ -32,6 +32,9 @@ from props import PROPS  # per-property configuration
 THOROUGH_SCALE = {"C01": 6, "C02": 24, "C03": 6, "C04": 40, "C05": 16, "C06": 3, "C07": 3, "C08": 3, "C09": 3, "C10": 2,
                   "C12": 5, "C13": 2, "C15": 16, "C16": 12, "C20": 4}
 
+# the same for the quick tier: checks whose builder-sized quick list takes < 4 s run a multiple of it (10-20 s)
+QUICK_SCALE = {"C02": 6, "C03": 4, "C04": 8, "C05": 8, "C10": 4, "C11": 4, "C12": 3, "C15": 4, "C16": 4, "C19": 4, "C20": 2}
+
 RACE_FILES = set()  # event files written by workers of the -race build
 
 
@@ -180,6 +183,7 @@ def main():
     t0 = time.time()
     # thorough tier: cheap checks run a multiple of their case list (same PRNG addressing, longer lists)
     GOENV["VERIF_THOROUGH_SCALE"] = str(cfg.get("thorough_scale", THOROUGH_SCALE.get(prop, 1)))
+    GOENV["VERIF_QUICK_SCALE"] = str(cfg.get("quick_scale", QUICK_SCALE.get(prop, 1)))
 
     replay = None
     if a.replay:
@@ -389,7 +393,7 @@ def main():
                 "known_findings_open": sorted(open_sigs),
                 "worker_shards_completed": done_files, "lost_cases": [{k: l[k] for k in ("case", "kind", "rc")} for l in lost],
                 "tolerances": cfg.get("tolerances", "exact comparison"),
-                "case_list_multiple": int(GOENV.get("VERIF_THOROUGH_SCALE", "1")) if a.tier == "thorough" else 1,
+                "case_list_multiple": int(GOENV.get("VERIF_THOROUGH_SCALE", "1")) if a.tier == "thorough" else int(GOENV.get("VERIF_QUICK_SCALE", "1")),
                 "exhaustive": False,
             },
             "assumptions": cfg.get("assumptions", []) + ([oracle_note] if oracle_note else []),
